@@ -93,7 +93,8 @@ static void build_particle_space(const std::string& tier, const std::string& fam
         std::vector<std::pair<TermT, TermT>> pairs = {{{ELEM, 0}, {ELEM, 1}}, {{ELEM, 0}, {WILD, W_OTHER * 3 + PC_LAX}}};
         const std::vector<Occ>& OG = T ? FULL : REP3;
         const std::vector<Occ>& OL = T ? LEAF3 : MINI;
-        for (Kind c : COMP) for (Kind c2 : COMP) for (Occ o1 : OG) for (Occ o2 : OG) for (auto& pr : pairs) for (Occ o3 : OL) for (Occ o4 : OL) {
+        const std::vector<Occ>& OG2 = T ? CORE : REP3;   // inner group
+        for (Kind c : COMP) for (Kind c2 : COMP) for (Occ o1 : OG) for (Occ o2 : OG2) for (auto& pr : pairs) for (Occ o3 : OL) for (Occ o4 : OL) {
             PSPACE.push_back(Particle::group(c, o1, {Particle::group(c2, o2, {leafp(pr.first, o3), leafp(pr.second, o4)})}));
             PSPACE.push_back(Particle::group(c, o1, {Particle::group(c2, o2, {leafp(pr.first, o3)}), leafp(pr.second, o4)}));
             PSPACE.push_back(Particle::group(c, o1, {leafp(pr.first, o3), Particle::group(c2, o2, {leafp(pr.second, o4)})}));
@@ -316,6 +317,17 @@ static bool has_counter_occ(const Particle& p) {
     for (auto& k : p.kids) if (has_counter_occ(k)) return true;
     return false;
 }
+// Known defect C08-D6: two wildcards with the same namespace constraint but different processContents, the first one with a counter:
+// IGXMLScanner/SGXMLScanner::laxElementValidation take processContents from the leaf they tried first although
+// DFAContentModel::handleRepetitions moved on to the other leaf when the counter was exhausted (with or without full checking).
+static bool d6_predicate(const Particle& top) {
+    if (top.kind == ALL || !has_counter_occ(top)) return false;
+    std::vector<LeafInfo> L;
+    collect_leaves(top, L);
+    for (size_t i = 0; i < L.size(); i++) for (size_t j = i + 1; j < L.size(); j++)
+        if (L[i].kind == WILD && L[j].kind == WILD && L[i].term / 3 == L[j].term / 3 && L[i].term != L[j].term) return true;
+    return false;
+}
 static bool d1_predicate(const Particle& top, bool fullChecking) {
     if (fullChecking || top.kind == ALL || !has_counter_occ(top)) return false;
     std::vector<LeafInfo> L;
@@ -422,6 +434,11 @@ static void run_particle(uint64_t idx, Ctx& c) {
             if (d1_predicate(top, k.full)) {
                 if (g_skip_known) { c.count(std::string("known_defect:") + KNOWN_DEFECTS[0]); break; }
                 fields += std::string(",\"defect\":") + jstr(KNOWN_DEFECTS[0]);
+                c.count(std::string("tagged:") + KNOWN_DEFECTS[0]);
+            } else if (d6_predicate(top)) {
+                if (g_skip_known) { c.count(std::string("known_defect:") + KNOWN_DEFECTS[5]); break; }
+                fields += std::string(",\"defect\":") + jstr(KNOWN_DEFECTS[5]);
+                c.count(std::string("tagged:") + KNOWN_DEFECTS[5]);
             }
             c.violation(ex.invalid[w] ? "invalid-instance-accepted" : "valid-instance-rejected", fields);
             if (c.verbose) {
@@ -458,6 +475,13 @@ int main(int argc, char** argv) {
         // schemas with many words: all words on IG/SAX2/full and SG/DOM/nofull, the other six configurations on the words of length <= shallow
         for (int sc : {IG, SG}) for (int api : {SAX2, DOM}) for (int full = 1; full >= 0; full--)
             g_cfgs.push_back({sc, api, full != 0, (sc == IG && api == SAX2 && full) || (sc == SG && api == DOM && !full)});
+        if (a.has("grep")) {   // development aid: keep only the particles whose compact form contains all '+'-separated substrings
+            std::vector<Particle> keep; std::string g = a.str("grep");
+            for (auto& p : PSPACE) { std::string sh = show(p); bool ok = true; size_t st = 0;
+                while (st <= g.size()) { size_t e = g.find('+', st); std::string part = g.substr(st, e == std::string::npos ? e : e - st); if (sh.find(part) == std::string::npos) ok = false; if (e == std::string::npos) break; st = e + 1; }
+                if (ok) keep.push_back(p); }
+            PSPACE = keep;
+        }
         if (a.has("from")) { uint64_t f = a.num("from"), n = a.num("count", 1); PSPACE = std::vector<Particle>(PSPACE.begin() + f, PSPACE.begin() + std::min<uint64_t>(PSPACE.size(), f + n)); }
         R.total = PSPACE.size();
         R.fn = run_particle;
